@@ -204,6 +204,18 @@ theorem sp_sender_scanner_agree (L : Lawful o G) (H : Bytes → Bytes → Bytes)
         = outputTweak o H (o.mul bScan (o.mul hh A)) k :=
   sp_agreement L H keys a h A hA lowest hh hih bScan hb
 
+/-- **T9 (BIP375 shares).** For ANY list of eligible input keys — two or three inputs locked to the
+SAME key included: their equal per-input shares all count — the sum of the per-input ECDH shares
+`aᵢ•B_scan` is `prv_key_sum•B_scan` (so `pub_key_sum` of the shares answers), and the secret the PSBT
+roles derive from it gives the sender's tweaks `t_k` for every `k`: per-input shares, a global share
+and `output_keys` derive the same outputs. -/
+theorem sp_psbt_shares_sum (L : Lawful o G) (H : Bytes → Bytes → Bytes) (keys : List (Int × Bool))
+    (a : Int) (h : prvKeySum o keys = .ok a) (Bscan : α) (hB : L.abs Bscan ≠ 0)
+    (hh : Int) (hh0 : 0 < hh) (hh1 : hh < o.n) :
+    ∃ S, pubKeySum o (inputShares o keys Bscan) = .ok S ∧ L.abs S = a • L.abs Bscan ∧
+      ∀ k, outputTweak o H (o.mul hh S) k = outputTweak o H (o.mul (hh * a % o.n) Bscan) k :=
+  sp_share_sum L H keys a h Bscan hB hh hh0 hh1
+
 /-- **T9 (what a scan reports opens).** For ANY transaction outputs, tweak data and label map built
 as `label_lookup` builds it: every `(key, tweak)` that `scan_outputs` reports is one of the outputs
 given, and `(b_spend + tweak)•G` is a non-zero point with that x-coordinate — direct and labelled
